@@ -38,8 +38,16 @@ Edges(poly) == {<<poly[i], poly[NextIdx(poly, i)]>> : i \in DOMAIN poly}
 PolyLine2(poly, l) ==
   LET rs == {SegLine2(e[1], e[2], l) : e \in Edges(poly)} IN
   [k |-> IF \E r \in rs : r.k = "rel" THEN "rel" ELSE "set", pts |-> UNION {r.pts : r \in rs}]
+\* two collinear segments overlap in more than one point iff two distinct end points lie on both of them
+OverlapLong(a, b, c, d) == Cardinality({x \in {a, b, c, d} : OnSeg2(a, b, H(x)) /\ OnSeg2(c, d, H(x))}) >= 2
+\* an edge on the supporting line of the segment makes the result a relation only when the two overlap in infinitely many
+\* points; when they are disjoint or touch in one point (then a vertex, which the neighbouring edge contributes) the common
+\* points are finitely many and the result is the exact set (invariant PolySegSound checks this claim against the definition)
 PolySeg2(poly, c, d) ==
-  LET rs == {SegSeg2(e[1], e[2], c, d) : e \in Edges(poly)} IN
+  LET EdgeSeg(e) == IF Proportional(LineOf2(e[1], e[2]), LineOf2(c, d))
+                    THEN (IF OverlapLong(e[1], e[2], c, d) THEN [k |-> "rel", pts |-> {}] ELSE [k |-> "set", pts |-> {}])
+                    ELSE SegSeg2(e[1], e[2], c, d)
+      rs == {EdgeSeg(e) : e \in Edges(poly)} IN
   [k |-> IF \E r \in rs : r.k = "rel" THEN "rel" ELSE "set", pts |-> UNION {r.pts : r \in rs}]
 
 \* ---- 3-space (Cartesian integer vertices)
@@ -127,6 +135,10 @@ PolyLineSound == (Done /\ res.t = "polyline2" /\ res.r.k = "set") =>
    /\ \A p \in res.r.pts : PointOnHyper(p, res.l) /\ OnBoundary2(res.poly, p)
    /\ \A q \in {<<x, y, w>> : x \in 0..4, y \in 0..4, w \in {1, 2}} :
         (PointOnHyper(q, res.l) /\ OnBoundary2(res.poly, q)) => Primitive(q) \in res.r.pts
+PolySegSound == (Done /\ res.t = "polyseg2" /\ res.r.k = "set") =>
+   /\ \A p \in res.r.pts : OnSeg2(res.c, res.d, p) /\ OnBoundary2(res.poly, p)
+   /\ \A q \in {<<x, y, w>> : x \in 0..4, y \in 0..4, w \in {1, 2}} :
+        (OnSeg2(res.c, res.d, q) /\ OnBoundary2(res.poly, q)) => Primitive(q) \in res.r.pts
 \* a transversal through the interior of a convex polygon meets the boundary in exactly two points
 ConvexTwo == (Done /\ res.t = "polyline2" /\ res.r.k = "set" /\ Len(res.poly) <= 4) => Cardinality(res.r.pts) <= 2
 BoxSound == (Done /\ res.t = "boxline" /\ res.r.k = "set") =>
@@ -136,6 +148,8 @@ BoxSound == (Done /\ res.t = "boxline" /\ res.r.k = "set") =>
 Stratum ==
   LET n == Cardinality(res.r.pts) IN
   IF res.r.k = "rel" THEN "collinear-overlap"
+  ELSE IF res.t = "polyseg2" /\ (\E e \in Edges(res.poly) : Proportional(LineOf2(e[1], e[2]), LineOf2(res.c, res.d)))
+       THEN "segment-on-edge-line"
   ELSE IF n = 0 THEN "miss"
   ELSE IF res.t = "segseg2" /\ (\E p \in res.r.pts : p \in {H(res.a), H(res.b), H(res.c), H(res.d)}) THEN "touch-endpoint"
   ELSE IF res.t \in {"polyline2", "polyseg2"} /\ (\E p \in res.r.pts, i \in DOMAIN res.poly : p = H(res.poly[i])) THEN "through-vertex"
